@@ -23,17 +23,21 @@ CLAIMS.update({
         "text": "Region set algebra: every shortcut/trivial path of intersect, union, subtract, inverse, intersect_rect, union_rect, copy, reset, "
                 "clear, init* (operands of at most one rectangle or empty, every aliasing pattern, 16- and 32-bit, full coordinate domain) is "
                 "proved against point membership at a ghost point, with the decision *when* the shortcut may be left (pixman_op precondition) "
-                "as an obligation; pixman_coalesce, pixman_set_extents, init_rects(<=1) and the 16/32 conversions have their own contracts.",
+                "as an obligation; pixman_coalesce, pixman_set_extents, init_rects(<=1) and the 16/32 conversions have their own contracts. pixman_op and "
+                "validate are checked modularly: the band function, pixman_coalesce and the pairwise unions are contract stubs that check "
+                "their preconditions (bands handed over are the operands' original, readable rectangles; one call per overlapping band pair; "
+                "ytop/ybot), so the sweep, the old_data aliasing logic, the result shape and the bail paths are decided on the real code.",
         "note": "Bounded stand-ins (never counted as proved): operands with exactly 2 rectangles, pixman_op with the real intersect band function "
-                "(<=2 rects, coordinates 0..6), coalesce/set_extents with k>=2. UNVERIFIED: pixman_op with the union/subtract band functions, "
-                "validate, quick_sort_rects, init_rects with >=2 boxes (symbolic execution does not finish at any bound tried). "
+                "(<=2 rects, coordinates 0..6), coalesce/set_extents with k>=2. pixman_op / validate jobs: <= 3x3 rectangles / <= 5 boxes, y coordinates enumerated as order types "
+                "(sampled layouts), x free. UNVERIFIED: pixman_op together with the REAL union/subtract band functions, quick_sort_rects on >= 3 "
+                "unsorted boxes, init_rects end to end with >= 2 boxes. "
                 "Known finding: signed overflow in init_rects(count==1) for boxes wider than INT32_MAX.",
     },
     "C06": {
         "text": "Canonical form (every clause of the property: non-empty rects, band order, shared vertical extent, gaps, merged adjacent bands, "
                 "tight extents, single rect inline, empty = empty_data) is a conjunct of every C05 postcondition; equal() <=> same point set "
                 "incl. 'all empty regions are equal' (defect found and repaired by a fix: commit); selfcheck accepts every canonical region.",
-        "note": "Same bounds as C05. Uniqueness of the canonical form (same points => same list) is argued, not machine-checked. Known findings: "
+        "note": "Same bounds as C05 (pixman_op / validate result shape: opv jobs; bitmap import: image_e2e jobs). Uniqueness of the canonical form (same points => same list) is argued, not machine-checked. Known findings: "
                 "intersect_rect / inverse with an empty rectangle argument return a non-canonical 'single rectangle' holding no points.",
     },
     "C09": {
@@ -111,7 +115,7 @@ CLAIMS.update({
                 "--memory-leak-check): pixman_rect_alloc (create / grow: failure releases what the region owned), region copy/init_rects leave the designated broken region, return FALSE and leak nothing; a broken "
                 "operand propagates through union/intersect/inverse/subtract/copy/union_rect and fini accepts it; plus every image-setter, "
                 "glyph-cache and filter job of C20/C14/C17/C18 that runs under a symbolic failure mask.",
-        "note": "Only the functions named in the evidence are checked under failure; general_composite_rect's scanline buffer (skip, nothing fetched or stored, no leak) is covered by C01 glue.rect; the glyph mask "
+        "note": "Only the functions named in the evidence are checked under failure; pixman_op / validate bail paths by the opv jobs (bounded); general_composite_rect's scanline buffer (skip, nothing fetched or stored, no leak) is covered by C01 glue.rect; the glyph mask "
                 "and trapezoid temporary image by C17/C12 jobs run here; other silent-skip sites are NOT covered. Known finding: subtract with a broken "
                 "minuend returns TRUE.",
     },
